@@ -545,7 +545,7 @@ func chanLists(tier string, r *rand.Rand) [][]int {
 	n, maxLen := 5, 6
 	if tier == "thorough" {
 		lists = append(lists, []int{1, 2, 3, 4}, []int{1, 2, 3, 4, 5})
-		n, maxLen = 40, 24
+		n, maxLen = 150, 40
 	}
 	for i := 0; i < n; i++ {
 		lists = append(lists, randomList(r, 4+r.Intn(maxLen-3)))
@@ -575,7 +575,11 @@ func genChan(tier string, seed int64, only string) []*Case {
 						cuts = append(cuts, strconv.Itoa(k))
 					}
 				} else {
-					for j := 0; j < 3; j++ {
+					nc := 3
+					if tier == "thorough" {
+						nc = 6
+					}
+					for j := 0; j < nc; j++ {
 						cuts = append(cuts, strconv.Itoa(r.Intn(len(script)+1)))
 					}
 				}
